@@ -11,3 +11,5 @@ From Agdb Require Export ConcRead DeriveType.
 From Agdb Require Export Auth Paths.
 (* the storage-backed collections (C05): unique prefixes cp_ cv_ ce_ cl_ cm_ ct_ cg_ ga_ cr_ *)
 From Agdb Require Export Collections CollValues.
+(* the whole database in the record store (C05 L3): loaded LAST; unique prefix sd_ (+ load_db) *)
+From Agdb Require Export StoredDb.
